@@ -1048,14 +1048,18 @@ def gen_const_case(rnd, ctx):
     if not early:
         ops.append(["Touch", o, 16])
     live = list(range(npool)) + [D]
+    cur = D
     ops += [["Probe", x] for x in live]
     for _ in range(rnd.randint(1, 4)):
         r = rnd.random()
         if r < 0.35:
             ops.append(["SetRef", D, 1, rnd.choice([2, 3, None])])       # a link of the default object itself
         elif r < 0.7:
-            ops.append(["SetRef", o, 16, rnd.choice([2, 3, None])])      # the default is replaced
+            cur = rnd.choice([2, 3, None])
+            ops.append(["SetRef", o, 16, cur])                           # the default is replaced
         elif r < 0.85:
+            if cur is None:        # (the model cannot tell "set to None" from "never read")
+                continue
             ops.append(["Touch", o, 16])                                  # a later read changes nothing
         else:
             ops.append(["Unobserve", 0, 0, g])
